@@ -43,7 +43,7 @@ CHECKS = {
          "Held on the sampled inputs with |x| <= 1e300 (module vectors of 1-8, now and then up to 5000 inputs); the registry part is exhaustive over type codes and looks up a corpus of about 13 000 strings around the names and codes; concurrent activation through the shared factory in several processes."),
  "C19": ("exploration", "runtime monitor: textbook definitions on sorted copies compared with Floats / Trial / Experiment aggregates over generated series (incl. large common offsets; data-relative tolerances) and synthetic experiments (aggregates re-checked after in-place reordering; returned series must stay stable)",
          "Held on the sampled series (length 0..1024, now and then 4096..100001) and experiments (also recorded trial by trial into a pre-allocated list, one record replaced in place); variance asserted for n >= 2."),
- "C20": ("fault_enumeration", "trace checker over the recorded evaluator / observer call log of real Execute runs, enumerating solved patterns (incl. runs of zero generations), evaluator-error positions (plain, with the solved flag, deadline-like), cancellation points, pre-allocated and reused Experiment objects",
+ "C20": ("fault_enumeration", "trace checker over the recorded evaluator / observer call log of real Execute runs, enumerating solved patterns (incl. runs of zero trials and of zero generations), evaluator-error positions (plain, with the solved flag, deadline-like), cancellation points, pre-allocated and reused Experiment objects",
          "Exhaustive within the stated bounds (trials x generations x solved patterns x fault positions; observer and evaluator handed over in several forms, half of the observers asking the running experiment for progress reports); beyond them only a fixed list of longer runs (5-40 trials x 5-35 generations)."),
 }
 
